@@ -153,7 +153,7 @@ _tlc_seq = __import__("itertools").count()   # unique metadir per call, also fro
 
 
 def tlc(module, cfg=None, env=None, workers=1, deque=False, timeout=600,
-        metadir=None, extra=None, xmx="4g", coverage=False, cwd=SPECS, check_ok=True):
+        metadir=None, extra=None, xmx="4g", coverage=False, cwd=SPECS, check_ok=True, timeout_ok=False):
     """Run TLC on specs/<module>.tla. Returns dict with counts and output."""
     metadir = metadir or os.path.join(WORK, "tlcmeta", f"{module}-{os.getpid()}-{next(_tlc_seq)}-{int(time.time()*1000)%100000}")
     os.makedirs(metadir, exist_ok=True)
@@ -188,7 +188,7 @@ def tlc(module, cfg=None, env=None, workers=1, deque=False, timeout=600,
         ("Finished in" in out and "Error:" not in out and p.returncode == 0)
     res["invariant_violated"] = re.findall(r"Invariant (\S+) is violated", out)
     res["timeout"] = p.returncode == 124
-    if res["timeout"]:
+    if res["timeout"] and not timeout_ok:
         raise ToolError(f"TLC timeout on {module} after {timeout}s")
     if check_ok and not res["ok"] and not res["invariant_violated"]:
         if "is violated" not in out and "Temporal properties were violated" not in out:
